@@ -385,12 +385,9 @@ kani("models::quantizer_search_u8", ["C03", "C10", "C20"], kind="bounded", bound
      text="search terminates, symbol in support, interval holds the quantile, == encoder view; any support incl. 0..=255, any hint")
 kani("models::quantizer_search_i8", ["C03", "C10", "C20"], kind="bounded", bound="step-shaped CDFs; all supports, hints, quantiles of i8 symbols", timeout=7200, tier="thorough",
      fns=[M + "quantize.rs::<LeakilyQuantizedDistribution as DecoderModel>::quantile_function"])
-for _p in ("p8", "p5"):
-    kani(f"models::generic_decoder_{_p}", ["C05"], kind="bounded", bound="2-symbol tables (all), " + _p, timeout=900,
-         fns=[M + "model.rs::IterableEntropyModel::to_generic_decoder_model", M + "categorical/non_contiguous.rs::NonContiguousCategoricalDecoderModel::from_iterable_entropy_model"],
-         text="to_generic_decoder_model(m).quantile_function(q) == m.quantile_function(q) for every q")
-    kani(f"models::generic_encoder_{_p}", ["C05"], kind="bounded", bound="2-symbol tables (all), " + _p + "; hashbrown table", timeout=7200, tier="thorough",
-         fns=[M + "model.rs::IterableEntropyModel::to_generic_encoder_model", M + "categorical/non_contiguous.rs::NonContiguousCategoricalEncoderModel::from_iterable_entropy_model"])
+# models::generic_decoder_* / generic_encoder_* (to_generic_decoder_model / to_generic_encoder_model on 2-symbol tables) exhaust
+# CBMC's memory (Vec::extend over an impl-Iterator chain; hashbrown): measured, not registered.  The conversions are
+# covered only through symbol_table (rows == encoder view), from which both conversions are built.
 kani("models::lazy_vs_eager_small_p8", ["C05", "C03"], kind="bounded", bound="3 entries from {0,0.5,1,3}", timeout=900,
      fns=[M + "categorical/lazy_contiguous.rs::LazyContiguousCategoricalEntropyModel::{from_floating_point_probabilities_fast,left_cumulative_and_probability,quantile_function}"])
 for p, tier in (("p5", "quick"), ("p8", "quick"), ("p3", "thorough")):
